@@ -50,6 +50,7 @@ def restriction_rule(chk, repo, rid, fi, roles):
             flat.append(group)
         else:
             flat.append([s])
+    inline_used = set()
     for group in flat:
       restricted_here = set()
       for s in group:
@@ -71,13 +72,24 @@ def restriction_rule(chk, repo, rid, fi, roles):
                 restricted_here |= {x for x in roles if any(isinstance(g.targets[0], ast.Name) and g.targets[0].id == x
                                                             for g in group)}
                 used -= restricted_here
+        # a use of the restricted slice itself (`vh[idx, :] * s[:, None]` without rebinding vh) is a restricted use
+        def inline_ok(u):
+            occ = [x for x in ast.walk(s) if isinstance(x, ast.Name) and x.id == u and isinstance(x.ctx, ast.Load)]
+            ax_ = roles[u]
+            pats_ = ([f'{u}[{idx}]'] if ax_ == 0 else []) + ([f'{u}[{idx}, :]'] if ax_ == 0 else [f'{u}[:, {idx}]'])
+            subs = [norm(x) for x in ast.walk(s) if isinstance(x, ast.Subscript) and isinstance(x.value, ast.Name) and x.value.id == u]
+            return bool(occ) and len(subs) == len(occ) and all(t in pats_ for t in subs)
+        for u in [u for u in used if u in roles and u not in done]:
+            if inline_ok(u):
+                inline_used.add(u)
+                used = used - {u}
         early = [u for u in used if u in roles and u not in done]
         for u in early:
             chk.ob(rid, where(repo, fi, s), f'{fi.name}: `{u}` is not used before it has been restricted', False,
                    f'`{norm(s)[:70]}` uses the untruncated `{u}`', key=f'{rid}|{fi.qual}|early|{u}')
             n += 1
             done[u] = False
-    missing = [nm for nm in roles if nm not in done]
+    missing = [nm for nm in roles if nm not in done and nm not in inline_used]
     chk.ob(rid, where(repo, fi, c), f'{fi.name}: every array carrying the new bond is restricted ({sorted(roles)})',
            not missing, f'not restricted: {missing}', key=f'{rid}|{fi.qual}|all-restricted')
     return n + 1
@@ -100,12 +112,20 @@ def from_vector_rules(chk, repo, rid):
            key=f'{rid}|from_vector|reduced')
     # matrix being split: (Dleft*d) x rest, with Dleft the current left dimension of v
     m = svd[0].value.args[0]
-    b = pmatch(f'{V}.reshape((__D * d, d ** (nsites - __i - 1)))', m)
+    b = pmatch('__X.reshape((__D * d, d ** (nsites - __i - 1)))', m)
     loop = [l for l in ast.walk(fi.node) if isinstance(l, ast.For) and any(x is svd[0] for x in ast.walk(l))]
     ok = b is not None and loop and norm(loop[0].target) == b['__i'] and norm(loop[0].iter) == 'range(nsites)'
+    X = b['__X'] if b is not None else None
+    # the matrix being split is the remainder carried from site to site: the right SVD factor itself, or a local that the
+    # loop body rebinds to an expression of it; its row count is the current left bond dimension
+    carried = X == V or any(isinstance(s_, ast.Assign) and norm(s_.targets[0]) == X and
+                            any(isinstance(n_, ast.Name) and n_.id == V for n_ in ast.walk(s_.value))
+                            for s_ in (loop[0].body if loop else []))
     dl = [s for s in (loop[0].body if loop else []) if isinstance(s, ast.Assign) and b is not None and
-          norm(s.targets[0]) == b['__D']]
-    ok = ok and len(dl) == 1 and norm(dl[0].value) == f'{V}.shape[0]'
+          (norm(s.targets[0]) == b['__D'] or (isinstance(s.targets[0], ast.Tuple) and s.targets[0].elts and
+                                             norm(s.targets[0].elts[0]) == b['__D']))]
+    ok = ok and carried and len(dl) == 1 and (norm(dl[0].value) == f'{X}.shape[0]' or
+                                              (isinstance(dl[0].targets[0], ast.Tuple) and norm(dl[0].value) == f'{X}.shape'))
     chk.ob(rid, where(repo, fi, svd[0]), 'from_vector: site i splits off (left bond x d) against the remaining sites',
            bool(ok), norm(m)[:80], key=f'{rid}|from_vector|matrix')
     # leg domain: v = (left bond) x (phys_i, remaining sites); the loop body must produce a site tensor
@@ -116,16 +136,17 @@ def from_vector_rules(chk, repo, rid):
     sv = []
     if loop:
         i = norm(loop[0].target)
-        v0 = lg.param_tensor(V, 2, composite={1: [('d', None), (f'd ** (nsites - {i} - 1)', None)]})
+        XM = X or V
+        v0 = lg.param_tensor(XM, 2, composite={1: [('d', None), (f'd ** (nsites - {i} - 1)', None)]})
         body = [s for s in loop[0].body if not isinstance(s, ast.Assert)]
         w = where(repo, fi, loop[0])
         try:
-            it = LegInterp(fi, {V: v0}, repo=repo, body=body)
+            it = LegInterp(fi, {XM: v0}, repo=repo, body=body)
             it.run()
             site = it.env.get(f'@{M}.A[{i}]')
-            vn = it.env.get(V)
+            vn = it.env.get(XM)
             ok_site = isinstance(site, TVal) and site.rank == 3 and [[l.dim for l in ax] for ax in site.axes][:2] == \
-                [['d'], [f'{V}.0']] and len(site.axes[2]) == 1 and site.axes[2][0].tag == 'bond'
+                [['d'], [f'{XM}.0']] and len(site.axes[2]) == 1 and site.axes[2][0].tag == 'bond'
             chk.ob(rid, w, 'from_vector: site tensor has the layout (physical, left bond, new bond)', ok_site,
                    f'{[[l.dim for l in ax] for ax in site.axes] if isinstance(site, TVal) else site}', key=f'{rid}|from_vector|site')
             ok_v = isinstance(vn, TVal) and vn.rank == 2 and len(vn.axes[0]) == 1 and vn.axes[0][0].tag == 'bond' and \
@@ -137,7 +158,7 @@ def from_vector_rules(chk, repo, rid):
                 new = lg.tensordot(site, vn, [2], [0], 'new bond')
                 red, applied, problems = lg.apply_rules(new)
                 c = lg.canon(red)
-                okg = not problems and len(applied) == 1 and c['open'] == [(f'{V}.1a',), (f'{V}.0',), (f'{V}.1b',)] and \
+                okg = not problems and len(applied) == 1 and c['open'] == [(f'{XM}.1a',), (f'{XM}.0',), (f'{XM}.1b',)] and \
                     not c['pairs'] and not red.net.weights
                 detail = '; '.join(problems) or f'open {c["open"]}'
             chk.ob(rid, w, 'from_vector: site tensor times remainder reproduces the matrix that was split (singular values '
@@ -149,15 +170,28 @@ def from_vector_rules(chk, repo, rid):
                    key=f'{rid}|from_vector|wellformed')
         sv = [s for s in loop[0].body if isinstance(s, ast.Assign) and norm(s.targets[0]) == V]
     lab = [s for s in (loop[0].body if loop else []) if isinstance(s, ast.Assign) and norm(s.targets[0]).startswith(f'{M}.qD[')]
+    labv = norm(lab[0].value) if lab else ''
+    labline = lab[0].lineno if lab else 0
+    if lab and loop:
+        # the length held in a local (`Dright = len(s)`): the definition is what counts, and where it stands
+        for n_ in ast.walk(lab[0].value):
+            if isinstance(n_, ast.Name):
+                d_ = [s_ for s_ in loop[0].body if isinstance(s_, ast.Assign) and len(s_.targets) == 1 and norm(s_.targets[0]) == n_.id]
+                if len(d_) == 1 and 'len(' in norm(d_[0].value):
+                    labv = labv.replace(n_.id, norm(d_[0].value))
+                    labline = d_[0].lineno
+    strunc = [s_ for s_ in (loop[0].body if loop else []) if isinstance(s_, ast.Assign) and
+              any(norm(t_) == S for t_ in (s_.targets[0].elts if isinstance(s_.targets[0], ast.Tuple) else s_.targets)) and
+              not (isinstance(s_.value, ast.Call) and norm(s_.value.func) == 'np.linalg.svd')]
     ok = len(lab) == 1 and b is not None and norm(lab[0].targets[0]) == f'{M}.qD[{b["__i"]} + 1]' and \
-        ((f'len({S})' in norm(lab[0].value) and lab[0].lineno > (sv[0].lineno if sv else 0)) or
+        ((f'len({S})' in labv and labline > (strunc[0].lineno if strunc else 10 ** 9)) or
          any(f'len({norm(c_.targets[0])})' in norm(lab[0].value) for c_ in ast.walk(fi.node) if isinstance(c_, ast.Assign) and
              isinstance(c_.value, ast.Call) and norm(c_.value.func) == 'retained_bond_indices' and c_.lineno < lab[0].lineno))
     chk.ob(rid, where(repo, fi, lab[0] if lab else fi.node), 'from_vector: the label of bond i+1 has the length of the '
            'retained singular values (taken after the truncation)', ok, norm(lab[0]) if lab else '', key=f'{rid}|from_vector|label')
     # trailing scalar absorbed
     tail = [s for s in fi.node.body if isinstance(s, ast.AugAssign) and norm(s.target) == f'{M}.A[-1]']
-    ok = len(tail) == 1 and isinstance(tail[0].op, ast.Mult) and norm(tail[0].value) == f'{V}[0, 0]'
+    ok = len(tail) == 1 and isinstance(tail[0].op, ast.Mult) and norm(tail[0].value) in (f'{V}[0, 0]', f'{X}[0, 0]')
     chk.ob(rid, where(repo, fi, tail[0] if tail else fi.node), 'from_vector: the remaining 1x1 factor is absorbed into the '
            'last tensor', ok, norm(tail[0]) if tail else '', key=f'{rid}|from_vector|tail')
     return n + 6
